@@ -36,8 +36,9 @@ func init() {
 			"(stateflow) every FieldOffset value that reaches an asm Load*/Store* call in polprog - directly, through the leg->offset functions, through parameters, or through a local whose Offset is adjusted - derives from a named state offset plus a term with a computed bound (constants, loop counters bounded by their loop guard and len() of make()d slices, accumulation bounded by the trip count of the carrying loop), and [base+lo, base+hi+width) lies inside the C member the base names in every build; the named offsets are never written outside the package initialiser; " +
 			"(mirror) every named field of the Go state.State mirror starts and ends on C field boundaries, the Go struct is exactly expectedSize, C sizeof <= expectedSize <= entrySize == the cali_state map value size; " +
 			"(maps) for every Go maps.MapParameters literal whose versioned name is a map declared by a BPF program, KeySize/ValueSize equal sizeof of the C key/value types in every build that declares it; " +
-			"(access) every constant byte range or index that Go code applies to a [N]byte key/value type tied to such a map starts and ends on a field boundary of the C key/value type.",
-		NotDecided: "Byte order and signedness of individual fields; which word of a member a computed state offset selects (only that it stays inside the member; the bound is an interval over-approximation); the pointer register an offset is applied to; state offsets outside polprog; accesses through non-constant offsets or through plain []byte; that a Go accessor reads the field its name suggests (only that it reads whole fields).",
+			"(access) every constant byte range or index that Go code applies to a [N]byte key/value type tied to such a map starts and ends on a field boundary of the C key/value type; " +
+			"(access, scalar clause) when such a constant position is decoded or encoded as ONE number - handed (directly, or through a local bound once to the slice) to encoding/binary's UintN/PutUintN/AppendUintN of any byte order, or a constant single-byte index used as a value - the N/8 bytes actually accessed (Uint64(e[24:]) touches [24,32) only) are, in every C layout the type is tied to, exactly one C scalar of that width: a non-aggregate leaf, one element of an array leaf, a union alternative, or a run of whole bit-fields inside one storage unit; a slice shorter than the width is reported too.  A wider access that covers two adjacent C scalars (two 16-bit ports as one 32-bit word) is a violation even where the arithmetic would come out right: there is no such access in today's tree and hence no exception list.",
+		NotDecided: "Byte order and signedness of individual fields; which word of a member a computed state offset selects (only that it stays inside the member; the bound is an interval over-approximation); the pointer register an offset is applied to; state offsets outside polprog; accesses through non-constant offsets or through plain []byte; that a Go accessor reads the field its name suggests (only that a scalar access is exactly one C scalar and a copy covers whole fields); scalar accesses through a sub-slice of a local, through a helper taking []byte, or at non-constant positions.",
 		Assumptions: []string{
 			"clang 14 record layout for -target bpf (x86_64 defines) equals the layout of the compiled programs",
 			"/verif/cstubs (bpf_helpers.h, bpf_endian.h, bpf_core_read.h: macros only) stand in for libbpf, which is not vendored",
@@ -69,6 +70,15 @@ func init() {
 				Old: "\treturn k[4:11]\n", New: "\treturn k[4:12]\n", Expect: "C13.access/felix/bpf/nat.FrontendKey[4:12]"},
 			{Name: "conntrack key accessor straddles two fields", File: "felix/bpf/conntrack/v4/map.go",
 				Old: "return binary.LittleEndian.Uint16(k[12:14])", New: "return binary.LittleEndian.Uint16(k[11:13])", Expect: "C13.access/"},
+			{Name: "F19 re-introduced: IPv6 cleanup-queue value reads last_seen at the IPv4 key size", File: "felix/bpf/conntrack/cleanupv1/map6.go",
+				Old: "return binary.LittleEndian.Uint64(e[KeyV6Size : KeyV6Size+8])", New: "return binary.LittleEndian.Uint64(e[KeySize : KeySize+8])",
+				Expect: "C13.access/felix/bpf/conntrack/cleanupv1.ValueV6[16:24]/scalar"},
+			{Name: "F19 sibling: rev_last_seen read through an open-ended slice at the IPv4 key size", File: "felix/bpf/conntrack/cleanupv1/map6.go",
+				Old: "return binary.LittleEndian.Uint64(e[KeyV6Size+8:])", New: "return binary.LittleEndian.Uint64(e[KeySize+8:])",
+				Expect: "C13.access/felix/bpf/conntrack/cleanupv1.ValueV6[24:32]/scalar"},
+			{Name: "conntrack key: port_b written as a 32-bit word over port_a and port_b", File: "felix/bpf/conntrack/v4/map.go",
+				Old: "binary.LittleEndian.PutUint16(k[14:16], portB)", New: "binary.LittleEndian.PutUint32(k[12:16], uint32(portB))",
+				Expect: "C13.access/felix/bpf/conntrack/v4.Key[12:16]/scalar"},
 		},
 	})
 }
@@ -97,7 +107,7 @@ func runC13(c *Ctx) {
 	c.Rule("C13.stateflow", "E-LAYOUT/E-RANGE", "every FieldOffset reaching an asm Load*/Store* in polprog derives from a named state offset plus a bounded term (constants, loop counters bounded by their guard, accumulation bounded by the loop's trip count): [base+lo, base+hi+width) stays inside the C member the base names, in every build", 24)
 	c.Rule("C13.mirror", "E-LAYOUT", "Go state.State fields start and end on C field boundaries; size chain C sizeof <= expectedSize == Sizeof(State) <= entrySize == map value size", 40)
 	c.Rule("C13.maps", "E-LAYOUT", "MapParameters.KeySize/ValueSize == sizeof(C key/value type) for every map declared on both sides", 60)
-	c.Rule("C13.access", "E-LAYOUT", "constant byte ranges on [N]byte key/value types coincide with C field boundaries", 120)
+	c.Rule("C13.access", "E-LAYOUT", "constant byte ranges on [N]byte key/value types coincide with C field boundaries; bytes decoded/encoded as one scalar (encoding/binary UintN/PutUintN/AppendUintN, constant byte index) are exactly one C scalar of that width in every layout (keys …/scalar)", 250)
 
 	L := loadCLayouts(c, csideRoot())
 	p := c.LoadWith(LoadOpts{NoSSA: true}, "felix/bpf/...")
@@ -603,10 +613,7 @@ func c13Maps(c *Ctx, p *Prog, L *cLayouts) []*goMapParams {
 
 func c13Access(c *Ctx, p *Prog, L *cLayouts, gm []*goMapParams) {
 	// named [N]byte types whose length constant is the KeySize/ValueSize of a matched map
-	type link struct {
-		g    *goMapParams
-		side string // key | value
-	}
+	type link = c13Link
 	constLinks := map[types.Object][]link{}
 	for _, g := range gm {
 		if len(L.mapDecls(g.symbol())) == 0 {
@@ -785,4 +792,6 @@ func c13Access(c *Ctx, p *Prog, L *cLayouts, gm []*goMapParams) {
 		c.Check(len(bad) == 0, fmt.Sprintf("C13.access/%s.%s[%d:%d]", strings.TrimPrefix(a.tn.Pkg().Path(), calicoPrefix), a.tn.Name(), a.lo, a.hi), p.Pos(seen[a]),
 			fmt.Sprintf("bytes [%d,%d) start and end on C field boundaries in %d layout(s)", a.lo, a.hi, len(bs)), strings.Join(bad, "; "))
 	}
+	// scalar clause (engine_C13b.go): bytes decoded/encoded as ONE scalar are exactly one C scalar
+	c13AccessScalar(c, p, L, typeLinks)
 }
